@@ -61,6 +61,7 @@ type Contract struct {
 	FromSchema string // name of the schema this contract was instantiated from / inherits
 	Inherit    string // explicit contract: clauses of this schema are prepended
 	FParams    map[string]string // function-typed parameter -> schema its argument must satisfy
+	Weak       bool              // strong(self) is false for this function
 	Replay     *Expr // string-valued expression (pre-state): the input buffer for counterexample replay
 	Ghosts     []string
 	BuildsNodes bool
@@ -306,6 +307,9 @@ func (cs *ContractSet) line(cur **Contract, text, file string, ln int) error {
 		c.Trusted = true
 	case "buildsnodes":
 		c.BuildsNodes = true
+	case "weak":
+		// the function does not promise the clauses guarded by strong(self)
+		c.Weak = true
 	case "inherit":
 		c.Inherit = rest
 	case "fparam":
@@ -463,6 +467,23 @@ func (c *Contract) tagsFor(cl *Clause) []string {
 	return c.Props
 }
 
+func dropOverridden(schema, explicit []*Clause) []*Clause {
+	over := map[string]bool{}
+	for _, cl := range explicit {
+		if cl.Label != "" {
+			over[cl.Label] = true
+		}
+	}
+	var out []*Clause
+	for _, cl := range schema {
+		if cl.Label != "" && over[cl.Label] {
+			continue
+		}
+		out = append(out, cl)
+	}
+	return out
+}
+
 // forFunc returns the contract of a function: an explicit one (with the clauses of the schema it
 // inherits prepended), or the instantiation of the first schema whose pattern matches the name.
 func (cs *ContractSet) forFunc(name string) *Contract {
@@ -470,8 +491,9 @@ func (cs *ContractSet) forFunc(name string) *Contract {
 		if c.Inherit != "" && !c.merged {
 			for _, sc := range cs.Schemas {
 				if sc.Name == c.Inherit {
-					c.Requires = append(append([]*Clause{}, sc.C.Requires...), c.Requires...)
-					c.Ensures = append(append([]*Clause{}, sc.C.Ensures...), c.Ensures...)
+					// an explicit labelled clause replaces the schema clause with the same label
+					c.Requires = append(dropOverridden(sc.C.Requires, c.Requires), c.Requires...)
+					c.Ensures = append(dropOverridden(sc.C.Ensures, c.Ensures), c.Ensures...)
 					if c.Modifies == nil {
 						c.Modifies = sc.C.Modifies
 					}
